@@ -21,7 +21,10 @@ type e4EnumWorkload struct {
 	Name  string
 	Cfg   e4Config
 	Steps []e4Step
-	Depth int // maximal number of cuts (consecutive connections 1..Depth)
+	Depth int // maximal number of faults (one per connection 1..Depth)
+	// Extra: further fault kinds tried at every level beside the cuts ("dialErr": attempt k fails to dial,
+	// "refuse": its CONNACK refuses); each uses up one connection number like a cut does
+	Extra []string
 }
 
 func e4EnumSteps(steps ...e4Step) []e4Step {
@@ -54,7 +57,7 @@ func e4ExploreCuts(t *testing.T, prop, replayTest string, w e4EnumWorkload, orac
 		nodesAtDepth[len(plan)]++
 		fired := 0
 		for _, e := range r.Log {
-			if e.Kind == "CUT" {
+			if e.Kind == "CUT" || e.Kind == "DIAL-ERR" || (e.Kind == "B" && e.Pkt != nil && e.Pkt.Type == rtConnAck && e.Pkt.Code != 0) {
 				fired++
 			}
 		}
@@ -89,6 +92,13 @@ func e4ExploreCuts(t *testing.T, prop, replayTest string, w e4EnumWorkload, orac
 				visit(append(append([]e4Fault{}, plan...), e4Fault{Kind: "cut", Conn: k, Pkt: j, After: after}))
 			}
 		}
+		for _, kind := range w.Extra {
+			f := e4Fault{Kind: kind, Conn: k}
+			if kind == "refuse" {
+				f.Code = 1 + (k+len(plan))%5
+			}
+			visit(append(append([]e4Fault{}, plan...), f))
+		}
 	}
 	visit(nil)
 	return runs, nodesAtDepth
@@ -117,11 +127,11 @@ func e4EnumRun(t *testing.T, prop, replayTest string, ws []e4EnumWorkload, oracl
 	vExtraSet(prop, "enum_plans_total", total)
 }
 
-func e4EnumCfgs(name string, steps []e4Step, depth int, cfgs map[string]e4Config) []e4EnumWorkload {
+func e4EnumCfgs(name string, steps []e4Step, depth int, cfgs map[string]e4Config, extra ...string) []e4EnumWorkload {
 	var out []e4EnumWorkload
 	for _, k := range []string{"A", "B", "lost", "always", "clean", "timeout", "direct"} {
 		if cfg, ok := cfgs[k]; ok {
-			out = append(out, e4EnumWorkload{Name: name + "/" + k, Cfg: cfg, Steps: steps, Depth: depth})
+			out = append(out, e4EnumWorkload{Name: name + "/" + k, Cfg: cfg, Steps: steps, Depth: depth, Extra: extra})
 		}
 	}
 	return out
@@ -143,7 +153,7 @@ func TestVerifC02_CutEnum(t *testing.T) {
 	ab := map[string]e4Config{"A": e4CfgA, "B": e4CfgB}
 	abt := map[string]e4Config{"A": e4CfgA, "B": e4CfgB, "timeout": e4CfgTimeout, "always": e4CfgAlways}
 	var ws []e4EnumWorkload
-	ws = append(ws, e4EnumCfgs("q2", e4EnumSteps(e4Connect, e4Pub(2, "t/a")), e4EnumDepth(3, 4), abt)...)
+	ws = append(ws, e4EnumCfgs("q2", e4EnumSteps(e4Connect, e4Pub(2, "t/a")), e4EnumDepth(3, 5), abt)...)
 	ws = append(ws, e4EnumCfgs("q1,q2", e4EnumSteps(e4Connect, e4Pub(1, "t/a"), e4Pub(2, "t/b")), e4EnumDepth(2, 3), ab)...)
 	ws = append(ws, e4EnumCfgs("q2,q2", e4EnumSteps(e4Connect, e4Pub(2, "t/a"), e4Pub(2, "t/b")), e4EnumDepth(2, 3), ab)...)
 	ws = append(ws, e4EnumCfgs("pre:q2|q2", e4EnumSteps(e4Pub(2, "t/a"), e4Connect, e4Pub(2, "x")), e4EnumDepth(2, 3), ab)...)
@@ -156,8 +166,8 @@ func TestVerifC02_CutEnum(t *testing.T) {
 func TestVerifC12_CutEnum(t *testing.T) {
 	ab := map[string]e4Config{"A": e4CfgA, "B": e4CfgB, "lost": e4CfgLost}
 	var ws []e4EnumWorkload
-	ws = append(ws, e4EnumCfgs("q2", e4EnumSteps(e4Connect, e4Step{Kind: "pub", QoS: 2, Topic: "t/a", Retain: true}), e4EnumDepth(3, 4), ab)...)
-	ws = append(ws, e4EnumCfgs("q1", e4EnumSteps(e4Connect, e4Step{Kind: "pub", QoS: 1, Topic: "t/a", ID: 40001}), e4EnumDepth(3, 4), ab)...)
+	ws = append(ws, e4EnumCfgs("q2", e4EnumSteps(e4Connect, e4Step{Kind: "pub", QoS: 2, Topic: "t/a", Retain: true}), e4EnumDepth(3, 5), ab, "dialErr")...)
+	ws = append(ws, e4EnumCfgs("q1", e4EnumSteps(e4Connect, e4Step{Kind: "pub", QoS: 1, Topic: "t/a", ID: 40001}), e4EnumDepth(3, 5), ab, "dialErr", "refuse")...)
 	ws = append(ws, e4EnumCfgs("q2id,q1", e4EnumSteps(e4Connect, e4Step{Kind: "pub", QoS: 2, Topic: "t/a", ID: 40001}, e4Pub(1, "t/b")), e4EnumDepth(2, 3), ab)...)
 	ws = append(ws, e4EnumCfgs("pre:q1,q0|q2", e4EnumSteps(e4Pub(1, "t/a"), e4Pub(0, "x"), e4Connect, e4Pub(2, "t/b")), e4EnumDepth(2, 3), map[string]e4Config{"A": e4CfgA, "direct": e4CfgDirect})...)
 	e4EnumRun(t, "C12", "TestVerifC12_Retransmit", ws, e4OracleC12)
@@ -168,7 +178,7 @@ func TestVerifC12_CutEnum(t *testing.T) {
 func TestVerifC03_CutEnum(t *testing.T) {
 	cf := map[string]e4Config{"A": e4CfgA, "lost": e4CfgLost, "always": e4CfgAlways}
 	var ws []e4EnumWorkload
-	ws = append(ws, e4EnumCfgs("q1,q2,q1", e4EnumSteps(e4Connect, e4Pub(1, "t/a"), e4Pub(2, "t/b"), e4Pub(1, "x")), e4EnumDepth(2, 3), cf)...)
+	ws = append(ws, e4EnumCfgs("q1,q2,q1", e4EnumSteps(e4Connect, e4Pub(1, "t/a"), e4Pub(2, "t/b"), e4Pub(1, "x")), e4EnumDepth(2, 3), cf, "dialErr", "refuse")...)
 	ws = append(ws, e4EnumCfgs("pre:q1,q2|q0,q1", e4EnumSteps(e4Pub(1, "t/a"), e4Pub(2, "t/b"), e4Connect, e4Pub(0, "x"), e4Pub(1, "t/a")), e4EnumDepth(2, 3), cf)...)
 	ws = append(ws, e4EnumCfgs("sub,q1,unsub,q2", e4EnumSteps(e4Connect, e4Step{Kind: "sub", QoS: 1}, e4Pub(1, "t/a"), e4Step{Kind: "unsub"}, e4Pub(2, "t/b")), e4EnumDepth(2, 2), cf)...)
 	e4EnumRun(t, "C03", "TestVerifC03_Order", ws, e4OracleC03)
@@ -179,8 +189,8 @@ func TestVerifC01_CutEnum(t *testing.T) {
 	cf := map[string]e4Config{"A": e4CfgA, "B": e4CfgB, "lost": e4CfgLost, "always": e4CfgAlways, "clean": e4CfgClean, "timeout": e4CfgTimeout}
 	var ws []e4EnumWorkload
 	ws = append(ws, e4EnumCfgs("pre:q1|sub,q2,unsub", e4EnumSteps(e4Pub(1, "t/a"), e4Connect, e4Step{Kind: "sub", QoS: 2, Subs: []c05Sub{{Filter: "a", QoS: 1}}}, e4Pub(2, "t/b"), e4Step{Kind: "unsub", Subs: []c05Sub{{Filter: "a"}}}), e4EnumDepth(2, 2), cf)...)
-	ws = append(ws, e4EnumCfgs("q2,sub", e4EnumSteps(e4Connect, e4Pub(2, "t/a"), e4Step{Kind: "sub", QoS: 0}), e4EnumDepth(2, 3), cf)...)
-	ws = append(ws, e4EnumCfgs("pre:sub,unsub,q1|", e4EnumSteps(e4Step{Kind: "sub", QoS: 1}, e4Step{Kind: "unsub"}, e4Pub(1, "x"), e4Connect), e4EnumDepth(2, 3), cf)...)
+	ws = append(ws, e4EnumCfgs("q2,sub", e4EnumSteps(e4Connect, e4Pub(2, "t/a"), e4Step{Kind: "sub", QoS: 0}), e4EnumDepth(2, 3), cf, "dialErr", "refuse")...)
+	ws = append(ws, e4EnumCfgs("pre:sub,unsub,q1|", e4EnumSteps(e4Step{Kind: "sub", QoS: 1}, e4Step{Kind: "unsub"}, e4Pub(1, "x"), e4Connect), e4EnumDepth(2, 3), cf, "dialErr", "refuse")...)
 	e4EnumRun(t, "C01", "TestVerifC01_NoLoss", ws, e4OracleC01)
 }
 
